@@ -4,7 +4,7 @@
 cd "$(dirname "$0")/.."
 seed=${1:-7}; workers=${2:-6}; shift; shift
 props=${@:-C01 C02 C03 C04 C05 C06 C07 C08 C09 C10 C11 C12 C13 C14 C15 C16 C17 C18 C19 C20}
-bin/setup.sh || exit 2
+python3 bin/vbuild.py > /dev/null || exit 2   # key fixtures are read from /verif/build/fixtures
 for p in $props; do
   s=$(date +%s)
   VERIF_SEED=$seed VERIF_JOBS_PARALLEL=$workers bin/check $p --tier thorough --no-evidence > sweep_$p.log 2>&1
